@@ -2,8 +2,11 @@ package main
 
 import (
 	"bytes"
+	"context"
 	"fmt"
 	"io"
+
+	car "github.com/ipld/go-car"
 
 	blocks "github.com/ipfs/go-block-format"
 	"github.com/ipfs/go-cid"
@@ -66,6 +69,26 @@ func runReader(rd string, o readOpts, input []byte) string {
 			return openErr(o, err)
 		}
 		roots, n = cr.Header.Roots, cr
+	case "root", "root-noerr":
+		cr, err := car.NewCarReaderWithOptions(bytes.NewReader(input), car.WithErrorOnEmptyRoots(rd == "root"))
+		if err != nil {
+			return openErr(o, err)
+		}
+		roots, n = cr.Header.Roots, cr
+	case "rootload":
+		ms := &mapStore{}
+		h, err := car.LoadCar(context.Background(), ms, bytes.NewReader(input))
+		if err != nil {
+			// LoadCar reports a mid-stream failure as an error after storing the blocks before it
+			if h == nil && len(ms.bs) == 0 {
+				if _, herr := car.NewCarReader(bytes.NewReader(input)); herr != nil {
+					return openErr(o, err)
+				}
+			}
+			rs := rootsOf(input)
+			return fmt.Sprintf("open=ok roots=%s blocks=%s end=%s sound=%d", cidsStr(rs), blocksStr(ms.bs), classify(err), b2i(sound(ms.bs)))
+		}
+		return fmt.Sprintf("open=ok roots=%s blocks=%s end=eof sound=%d", cidsStr(h.Roots), blocksStr(ms.bs), b2i(sound(ms.bs)))
 	default:
 		panic("unknown reader " + rd)
 	}
@@ -82,4 +105,20 @@ func openErr(o readOpts, err error) string {
 		return "open=" + classify(err)
 	}
 	return "open=" + classify(err) + " sound=1"
+}
+
+// mapStore is a car.Store that records puts one by one (no PutMany: the slow path).
+type mapStore struct{ bs []Blk }
+
+func (m *mapStore) Put(_ context.Context, b blocks.Block) error {
+	m.bs = append(m.bs, Blk{b.Cid(), b.RawData()})
+	return nil
+}
+
+func rootsOf(input []byte) []cid.Cid {
+	cr, err := car.NewCarReader(bytes.NewReader(input))
+	if err != nil {
+		return nil
+	}
+	return cr.Header.Roots
 }
